@@ -858,6 +858,12 @@ class AtomicityMonitor(Monitor):
 class RefreshMonitor(Monitor):
     name = "refresh"
 
+    def start(self, sess):
+        # own model of "is there something to step to" (never the return value of the call)
+        self.tl = O.Timeline(0)
+        self.nedit = 0
+        return []
+
     def step(self, sess, rec):
         if not is_real_call(rec):
             return []
@@ -870,11 +876,15 @@ class RefreshMonitor(Monitor):
         self.evals += 1
         out = []
         if k in ("undo", "redo"):
-            expect = 1 if rec.out.ret is True else 0
+            possible = self.tl.undo() if k == "undo" else self.tl.redo()
+            expect = 1 if possible else 0
             outcome = "done" if expect else "nothing-to-do"
         else:
             expect = 1 if rec.out.ok else 0
             outcome = "ok" if rec.out.ok else "refused"
+            if rec.out.ok and k in EDIT_OPS:
+                self.nedit += 1
+                self.tl.edit(self.nedit)
         self.keys.add(f"{cls}/{outcome}/depth={s['maxdepth']}/{sig(rec)}")
         self.count(f"{outcome}-{cls}")
         if s["maxdepth"] >= 2:
